@@ -275,6 +275,40 @@ Proof. exact cache_managers_threshold. Qed.
 Theorem one_manager_per_grid : forall rb fs grids, length (cache_managers rb fs grids) = length grids.
 Proof. exact cache_managers_length. Qed.
 
+(* An on_error placeholder that authorises stale tiles (authorize_stale: True), whatever its `cache` flag, never
+   replaces a stale tile (single tile creation): the request is answered with the old tile, the cache - content and
+   time stamp - is untouched, so the tile is still stale and the next request for it asks the upstream again,
+   whatever the upstream then answers. *)
+Theorem failed_refresh_with_placeholder_keeps_stale_tile : forall Q m ev sc members s a e cacheable v0,
+  m_meta m = false ->
+  get (s_cache s) a = Some e ->
+  tm_is_cached Q m ev (s_cache s) a = Some false ->
+  next_outcome sc s = UOk cacheable true v0 ->
+  load_tile_coords Q m ev sc members s [a] = (mkSt (s_cache s) ([a] :: s_log s), Served [Some (e_content e)]) /\
+  forall sc', exists s2 r, load_tile_coords Q m ev sc' members (mkSt (s_cache s) ([a] :: s_log s)) [a] = (s2, r) /\
+                          s_log s2 = [a] :: [a] :: s_log s.
+Proof. exact request_placeholder_authorize_stale_single. Qed.
+
+(* The same at the level of TileCreator._create_single_tile, for a tile inside any request ... *)
+Theorem placeholder_with_authorize_stale_is_not_stored_over_a_stale_tile : forall Q m ev sc s a e cacheable v0,
+  get (s_cache s) a = Some e ->
+  tm_is_cached Q m ev (s_cache s) a = Some false ->
+  next_outcome sc s = UOk cacheable true v0 ->
+  exists s', create_single Q m ev sc s a = Cont s' [(a, content_of (s_cache s) a)] /\
+             s_cache s' = s_cache s /\ s_log s' = [a] :: s_log s /\
+             tm_is_cached Q m ev (s_cache s') a = Some false.
+Proof. exact placeholder_authorize_stale_keeps_stale_tile. Qed.
+
+(* ... and where nothing is cached yet the placeholder is what the client gets, stored iff its `cache` flag says so. *)
+Theorem placeholder_with_authorize_stale_on_a_missing_tile : forall Q m ev sc s a cacheable v0,
+  get (s_cache s) a = None ->
+  tm_is_cached Q m ev (s_cache s) a = Some false ->
+  next_outcome sc s = UOk cacheable true v0 ->
+  create_single Q m ev sc s a =
+    Cont (mkSt (if cacheable then store_tile Q m ev (s_cache s) a (apply_tile_filter m v0) else s_cache s)
+               ([a] :: s_log s)) [(a, Some (apply_tile_filter m v0))].
+Proof. exact placeholder_authorize_stale_on_missing_tile. Qed.
+
 (* Tie to the source.  gen_tm_is_cached, gen_tm_is_stale and gen_expire_timestamp are regenerated on every run from
    the bodies of TileManager.is_cached, is_stale and expire_timestamp (translator/specs/expiry.py -> gen/Gen_expiry.v,
    statement by statement, fail closed).  The model the theorems above speak about IS these kernels, applied to the
